@@ -113,6 +113,21 @@ Theorem C13_escape_model_is_spec : forall s,
 Proof. exact escape_model_is_spec. Qed.
 Print Assumptions C13_escape_model_is_spec.
 
+(* otto's unescape (unit collecting loop of commit 6dc8dfa) is B.2.2 on every text without
+   surrogates (non-ASCII characters included) whose B.2.2 result is well-formed ... *)
+Theorem C13_unescape_model_is_spec : forall l,
+  Forall (fun c => c < 0x10000) l -> Forall (fun c => is_surr c = false) l ->
+  Forall unit_range (unescape_spec l) -> well_formed (unescape_spec l) = true ->
+  unescape_model l = unescape_spec l.
+Proof. exact unescape_model_is_spec. Qed.
+Print Assumptions C13_unescape_model_is_spec.
+
+(* ... hence otto's unescape inverts escape on EVERY well-formed string: surrogate pairs are restored *)
+Theorem C13_unescape_model_inverts_escape : forall s, Forall unit_range s -> well_formed s = true ->
+  unescape_model (escape_spec s) = s.
+Proof. exact unescape_model_escape. Qed.
+Print Assumptions C13_unescape_model_inverts_escape.
+
 (* ---- otto's deviations, as refutations of "model = spec" with concrete witnesses ---- *)
 Theorem C13_tonumber_skipped_refuted : exists fn l, conv_model fn l <> conv_spec fn l.
 Proof. exists 10, [one_bits; nan_bits; one_bits]. vm_compute. discriminate. Qed.
@@ -122,14 +137,11 @@ Theorem C13_escape_astral_refuted : exists s, well_formed s = true /\ escape_mod
 Proof. exists [0xD83D; 0xDE00]. split; [reflexivity | vm_compute; discriminate]. Qed.
 Print Assumptions C13_escape_astral_refuted.
 
-Theorem C13_unescape_bytes_refuted : exists s, well_formed s = true /\ unescape_model s <> unescape_spec s.
-Proof. exists [233]. split; [reflexivity | vm_compute; discriminate]. Qed.
-Print Assumptions C13_unescape_bytes_refuted.
-
-Theorem C13_unescape_surrogate_refuted :
-  exists s, unescape_model (escape_spec s) <> s /\ unescape_spec (escape_spec s) = s.
-Proof. exists [0xD83D; 0xDE00]. split; [vm_compute; discriminate | reflexivity]. Qed.
-Print Assumptions C13_unescape_surrogate_refuted.
+(* what is left of the unescape deviations: an UNPAIRED surrogate escape cannot be
+   returned in a Go string (class 8, with the lone surrogate arguments) *)
+Theorem C13_unescape_lone_escape_refuted : exists s, well_formed s = true /\ unescape_model s <> unescape_spec s.
+Proof. exists [37; 117; 68; 56; 48; 48]. split; [reflexivity | vm_compute; discriminate]. Qed.
+Print Assumptions C13_unescape_lone_escape_refuted.
 
 Theorem C13_lone_surrogate_refuted : exists s, decode_model false s <> decodeURIComponent_spec s.
 Proof. exists [0xD800]. vm_compute. discriminate. Qed.
@@ -177,3 +189,12 @@ Proof. split; [repeat constructor; vm_compute; try discriminate; reflexivity | s
 Example C13_escape_hyp_met :
   unescape_spec (escape_spec [64; 233; 0x100; 0xD83D; 0xDE00; 37]) = [64; 233; 0x100; 0xD83D; 0xDE00; 37].
 Proof. reflexivity. Qed.
+
+(* former witnesses of the repaired unescape defects, and a non-ASCII text meeting the hypotheses *)
+Example C13_unescape_regressions :
+  unescape_model [233] = [233] /\
+  unescape_model [37; 117; 68; 56; 51; 68; 37; 117; 68; 69; 48; 48] = [0xD83D; 0xDE00] /\
+  unescape_model (escape_spec [64; 233; 0xD83D; 0xDE00; 37]) = [64; 233; 0xD83D; 0xDE00; 37] /\
+  well_formed (unescape_spec [233; 37; 52; 49; 0x20AC]) = true /\
+  unescape_model [233; 37; 52; 49; 0x20AC] = [233; 65; 0x20AC].
+Proof. vm_compute. repeat split; reflexivity. Qed.
